@@ -30,25 +30,25 @@ structure Slice2 where
 deriving Repr, DecidableEq
 
 /-- smallest `i < n` with `p i` -/
-def firstTrue (p : Nat → Bool) : Nat → Option Nat
+def firstTrueIdx (p : Nat → Bool) : Nat → Option Nat
   | 0 => none
-  | n + 1 => match firstTrue p n with
+  | n + 1 => match firstTrueIdx p n with
     | some i => some i
     | none => if p n then some n else none
 
 /-- largest `i < n` with `p i` -/
-def lastTrue (p : Nat → Bool) : Nat → Option Nat
+def lastTrueIdx (p : Nat → Bool) : Nat → Option Nat
   | 0 => none
-  | n + 1 => if p n then some n else lastTrue p n
+  | n + 1 => if p n then some n else lastTrueIdx p n
 
-def anyBelow (p : Nat → Bool) (n : Nat) : Bool := (firstTrue p n).isSome
+def anyBelowIdx (p : Nat → Bool) (n : Nat) : Bool := (firstTrueIdx p n).isSome
 
 /-- `lentil.helper.boundary_slice(mask)` (threshold 0, pad 0) through `lentil.util.boundary`: first/last row and column
 holding a non-zero entry; an all-zero mask makes NumPy raise (`none`) -/
 def bboxSlice (s0 s1 : Int) (m : Int → Int → Bool) : Option Slice2 :=
-  let rowAny : Nat → Bool := fun i => anyBelow (fun j => m i j) s1.toNat
-  let colAny : Nat → Bool := fun j => anyBelow (fun i => m i j) s0.toNat
-  match firstTrue rowAny s0.toNat, lastTrue rowAny s0.toNat, firstTrue colAny s1.toNat, lastTrue colAny s1.toNat with
+  let rowAny : Nat → Bool := fun i => anyBelowIdx (fun j => m i j) s1.toNat
+  let colAny : Nat → Bool := fun j => anyBelowIdx (fun i => m i j) s0.toNat
+  match firstTrueIdx rowAny s0.toNat, lastTrueIdx rowAny s0.toNat, firstTrueIdx colAny s1.toNat, lastTrueIdx colAny s1.toNat with
   | some r0, some r1, some c0, some c1 => some ⟨r0, (r1 : Int) + 1, c0, (c1 : Int) + 1⟩
   | _, _, _, _ => none
 
